@@ -181,6 +181,8 @@ class World(Sim):
         u = self._pick(self.updates, update_i)
         if u is None or not u['groups']:
             return None
+        if resend and u['sent_groups'] == 0:
+            resend = False
         lo = 0 if resend else u['sent_groups']
         hi = len(u['groups']) if n is None else min(len(u['groups']), lo + max(1, n))
         if resend:
@@ -201,6 +203,8 @@ class World(Sim):
         # jobs may only reference groups that exist: send groups first
         if u['sent_groups'] < len(u['groups']) and any(j['g'][0] == 'in' for j in u['jobs']):
             return None
+        if resend and u['sent_jobs'] == 0:
+            resend = False        # nothing was sent yet: this is a first send, and it is book-kept as one
         lo = 0 if resend else u['sent_jobs']
         hi = len(u['jobs']) if n is None else min(len(u['jobs']), lo + max(1, n))
         if resend:
